@@ -54,10 +54,15 @@ impl Sc {
         }
     }
     pub fn expected_path(&self) -> String {
-        let p = if self.path.is_empty() { "/".to_string() } else { self.path.clone() };
-        match &self.query {
+        // a '#' in `path` or `query` starts the URL's fragment, which is never sent
+        let p = if self.path.is_empty() || self.path.starts_with('#') { format!("/{}", self.path) } else { self.path.clone() };
+        let full = match &self.query {
             Some(q) => format!("{p}?{q}"),
             None => p,
+        };
+        match full.find('#') {
+            Some(i) => full[..i].to_string(),
+            None => full,
         }
     }
     pub fn server_socket(&self) -> SocketAddr {
@@ -346,6 +351,14 @@ pub fn header_names(thorough: bool) -> Vec<String> {
         names.push("z".repeat(len).replace('z', "_")); // '_' has a 6-bit code; '~'/'^' do not shrink but are valid tchar
     }
     names.push("~^|`".into());
+    // ordinary names that are pieces of the reserved pseudo-header names
+    for n in ["path", "method", "scheme", "protocol", "authority", "auth", "th", "a"] {
+        names.push(n.to_string());
+    }
+    // valid token characters that sort before ':' (pseudo-header fields must still come first on the wire)
+    for n in ["0rtt-hint", "1", "9z", "-internal", "!x", "#x", "$x", "%x", "&x", "'x", "*x", "+x", ".x"] {
+        names.push(n.to_string());
+    }
     if thorough {
         for len in [2usize, 9, 126, 127, 128, 134, 135, 136] {
             names.push("q".repeat(len));
@@ -381,8 +394,8 @@ pub fn scenarios(tier: Tier) -> Vec<Sc> {
     let hosts = ["localhost", "example.com", "a.b-c.example", "10.0.0.1", "[fd00::1]", "EXAMPLE.Com"];
     let ports: [Option<u16>; 4] = [None, Some(443), Some(4433), Some(65535)];
     let long_path = format!("/{}", "p".repeat(199));
-    let paths = ["", "/", "/a", "/a/b/", "/%20x", long_path.as_str()];
-    let queries: [Option<&str>; 4] = [None, Some(""), Some("a=1&b=2"), Some("x=%2F")];
+    let paths = ["", "/", "/a", "/a/b/", "/%20x", long_path.as_str(), "/frag#sec", "#top"];
+    let queries: [Option<&str>; 6] = [None, Some(""), Some("a=1&b=2"), Some("x=%2F"), Some("id=42#chat"), Some("#")];
     let base = Sc { kind: Kind::WtWt, host: "localhost".into(), port: None, path: "/".into(), query: None, headers: vec![], decision: 0 };
     // A. URL grid x decisions
     let decisions: Vec<u8> = if thorough { vec![0, 1, 2, 3, 4, 5, 6] } else { vec![0, 1, 3] };
